@@ -128,11 +128,19 @@ func (s *server) serve(method, target string, hdr http.Header, body []byte) (rec
 // transport is an in-memory http.RoundTripper delivering client requests to the mux exactly as
 // a server would parse them from the request line (RequestURI re-parsed).
 type transport struct {
-	s        *server
-	mu       sync.Mutex
-	lastReq  *capturedRequest
-	lastResp []byte
-	panicked string
+	s          *server
+	mu         sync.Mutex
+	lastReq    *capturedRequest
+	lastResp   []byte
+	lastStatus int
+	lastHeader http.Header
+	panicked   string
+}
+
+func (t *transport) lastRespInfo() respInfo {
+	t.mu.Lock()
+	defer t.mu.Unlock()
+	return respInfo{status: t.lastStatus, header: t.lastHeader}
 }
 
 type capturedRequest struct {
@@ -176,6 +184,7 @@ func (t *transport) RoundTrip(req *http.Request) (*http.Response, error) {
 	res.Request = req
 	t.mu.Lock()
 	t.lastReq, t.lastResp, t.panicked = cr, rb, panicked
+	t.lastStatus, t.lastHeader = res.StatusCode, res.Header.Clone()
 	t.mu.Unlock()
 	if panicked != "" {
 		return nil, fmt.Errorf("server panicked: %s", panicked)
